@@ -144,6 +144,9 @@ V1_STMTS = [
     ("UPDATE Crate SET title = ?, path = ? WHERE id = ?", 'ssi'), ("DELETE FROM CrateParentList WHERE crateOriginId = ?", 'i'),
     ("DELETE FROM CrateHierarchy WHERE crateIdChild = ?", 'i'), ("DELETE FROM Crate WHERE id = ?", 'i'),
     ("INSERT INTO Track (path, filename) VALUES (?, ?)", 'ss'), ("DELETE FROM Track WHERE id = ?", 'i'),
+    # shapes the library does not use today but a plausible rewrite would (IN lists, LIKE, substr, length, ||): validated so that a change to /repo that uses them is decided, not refused
+    ("DELETE FROM CrateTrackList WHERE crateId IN (1, 3)", ''), ("DELETE FROM CrateHierarchy WHERE crateId IN (2) OR crateIdChild IN (2, 4)", ''),
+    ("UPDATE Crate SET path = ? || substr(path, length(?) + 1) WHERE id <> ? AND path LIKE ? || '%'", 'ssis'),
 ]
 V1_READS = ["SELECT id, title, path FROM Crate ORDER BY id", "SELECT crateOriginId, crateParentId FROM CrateParentList", "SELECT crateId, crateIdChild FROM CrateHierarchy",
             "SELECT crateId, trackId FROM CrateTrackList", "SELECT IFNULL(MAX(id), 0) + 1 FROM Crate", "SELECT id FROM Track ORDER BY id",
@@ -162,7 +165,7 @@ def validate_v1(ddl, nseq=200, seqlen=14, seed=1):
         real = real_db_v1(ddl); mod = ModelDB(ddl); hist = []
         for step in range(seqlen):
             sql, shape = rnd.choice(V1_STMTS)
-            p = tuple(rnd.choice([1, 2, 3, 4]) if ch == 'i' else rnd.choice(['a', 'b', 'a;b;', 'a;']) for ch in shape)
+            p = tuple(rnd.choice([1, 2, 3, 4]) if ch == 'i' else rnd.choice(['a', 'b', 'a;b;', 'a;', 'A;', 'a_', '%;', 'B;a;']) for ch in shape)
             hist.append((sql, p)); nst += 1
             try: real.execute(sql, p); rr = 'ok'
             except sqlite3.IntegrityError: rr = 'constraint'
